@@ -1161,7 +1161,7 @@ func (w *World) policy(appPoints map[string]bool) sched.Policy {
 // the loop is blocked on the LMDB write lock (or reaches its next hook).
 func (w *World) startStraddle(op string) {
 	s := w.S
-	s.ExpectLMDBBlock = true
+	s.ExpectLMDBBlock.Store(true)
 	w.straddleKey = map[string]string{"put-b": "d/b", "del-a": "d/a"}[op]
 	started := make(chan struct{})
 	s.Go("straddle", func() {
@@ -1199,6 +1199,10 @@ func (w *World) startStraddle(op string) {
 			close(started)
 			// hold the write transaction open until the scheduler lets us commit
 			s.Park("app.commit", "", nil)
+			// From here on the loop gets the write lock any moment: a goroutine still inside mdb_txn_begin is about to
+			// run, not blocked. (Clearing this only after the commit left a window in which a loaded machine could see
+			// "everything blocked, nothing parked" - a false loop-stuck alarm met once in a thorough run.)
+			s.ExpectLMDBBlock.Store(false)
 			return nil
 		})
 		w.mu.Lock()
@@ -1207,7 +1211,7 @@ func (w *World) startStraddle(op string) {
 		w.commits++
 		w.commitAt = append(w.commitAt, at)
 		w.mu.Unlock()
-		s.ExpectLMDBBlock = false
+		s.ExpectLMDBBlock.Store(false)
 	})
 	// let it start its transaction right away (it parks at "start" first)
 	s.WaitQuiescent()
